@@ -765,6 +765,7 @@ func (c *rcluster) recover(maxRounds int) (rview, bool) {
 			time.Sleep(200 * time.Microsecond)
 		}
 		c.heartbeats()
+		roundFrom := c.ev.len()
 		quiet := 0
 		deadline := time.Now().Add(10 * time.Second)
 		for time.Now().Before(deadline) {
@@ -781,6 +782,9 @@ func (c *rcluster) recover(maxRounds int) (rview, bool) {
 			} else {
 				quiet++
 			}
+			if c.failedStartsSince(roundFrom) >= 3 {
+				break // the job retries an assembly with an unreachable member in a hot loop: only time (expiry) helps
+			}
 			if quiet > 40 { // ~40 ms with nothing in flight after a fenced heartbeat round: the job waits for an event
 				break
 			}
@@ -790,6 +794,16 @@ func (c *rcluster) recover(maxRounds int) (rview, bool) {
 	}
 	v, ok := c.healthyRunning()
 	return v, ok
+}
+
+func (c *rcluster) failedStartsSince(from int) int {
+	n := 0
+	for _, x := range c.ev.since(from) {
+		if x.Kind == "log" && x.Node == "job" && x.Msg == "failed to start job" {
+			n++
+		}
+	}
+	return n
 }
 
 // allRegisteredOnce: every live worker's first registration (made from its own goroutine) has reached the job.
@@ -871,6 +885,34 @@ func replayReal(bi int, beh []mbt.Step, in *mbt.Input, res *mbt.Result) {
 			if _, ok := c.recover(6); !ok {
 				// nothing has failed yet: a cluster that does not even boot is not C15's recovery clause
 				res.Errors = append(res.Errors, fmt.Sprintf("behaviour %d: cluster of %d workers did not reach Running: %s", bi, s.Int("workers"), c.tail(25)))
+				return
+			}
+		case "bootheld": // start workers while the Deploy call to worker `w` is held: a fault can strike during deployment
+			c.setHold(fmt.Sprintf("deploy:%d", s.Int("w")), true)
+			from := c.ev.len()
+			for i := 0; i < s.Int("workers"); i++ {
+				c.addWorker()
+			}
+			deadline := time.Now().Add(waitLong)
+			parked := false
+			for time.Now().Before(deadline) && !parked {
+				for len(c.liveWorkers()) < s.Int("workers") {
+					c.addWorker()
+				}
+				if c.allRegisteredOnce() {
+					c.heartbeats()
+				}
+				parked = c.waitEv(from, 20*time.Millisecond, func(x ev) bool { return x.Kind == "parked" && strings.HasPrefix(x.Msg, "deploy:") })
+			}
+			if !parked {
+				res.Errors = append(res.Errors, fmt.Sprintf("behaviour %d step %d: no Deploy call parked: %s", bi, si, c.tail(25)))
+				return
+			}
+		case "recover": // between two faults: the cluster must be running again (judged like the final recovery)
+			c.releaseAll()
+			if v, ok := c.recover(16); !ok {
+				viol(si, "", "after the fault the job does not get back to Running on live workers although %d live workers keep registering (running=%v assembly %v %v): %s",
+					len(c.liveWorkers()), v.running, v.asmOps, v.asmSrs, c.tail(30))
 				return
 			}
 		case "checkpoint": // a complete checkpoint before the fault (so that the recovery restores from one)
